@@ -1,14 +1,36 @@
 //go:build verif
 
-// Contracts for the deductive verifier in /verif (kvc). Comment-only: this file adds no code.
+// Draft contracts (C19) for the deductive verifier in /verif (kvc). Comment-only: this file adds no code.
 package nodepool
 
+// ---- C19, weight side: OrderByWeight orders NodePools by "weight descending (nil weight = 0),
+// then name descending" ----
+//
+// What is ACTIVE in this file (decided by the stock engine): the order relation itself is a strict
+// weak order, in fact a strict TOTAL order on (weight, name) pairs, so sort.Slice has a unique
+// result whenever NodePool names are distinct ("consistent ordering").
+//
+// What is NOT decided by the stock engine (see ../../../full/ for the contracts that discharge on the
+// prototype engine patch in ../../../engine_patch/):
+//   * the comparator closure `OrderByWeight$1`: it compares two strings with `>`; the engine emits
+//     `(> Str Str)` for that, which is ill-sorted SMT (Str is an uninterpreted sort without order),
+//     so every obligation of the closure comes back "unknown";
+//   * OrderByWeight itself: sort.Slice has no stub, the call havocs the whole heap.
+//
+// Until the engine has a string order, Go's `a > b` on strings is the uninterpreted nameAfter(a, b);
+// the lemmas take "nameAfter is a strict total order" (which Go's byte-wise lexicographic comparison
+// is) as an explicit hypothesis, nameOrderOK().
 //@ pure nameAfter(a string, b string) bool
 //@ pure nameOrderOK() bool = (forall a string {nameAfter(a, a)} :: !nameAfter(a, a)) && (forall a string, b string, c string {nameAfter(a, b), nameAfter(b, c)} :: (nameAfter(a, b) && nameAfter(b, c)) ==> nameAfter(a, c)) && (forall a string, b string {nameAfter(a, b)} {nameAfter(b, a)} :: a == b || nameAfter(a, b) || nameAfter(b, a))
+
+// before(wa, na, wb, nb): a pool with weight wa and name na is ordered before one with (wb, nb).
 //@ pure before(wa int, na string, wb int, nb string) bool = wa > wb || (wa == wb && nameAfter(na, nb))
 
+// A larger weight always wins, whatever the names are (first sentence of C19).
+//@ lemma weightOrderWeightFirst [C19]: forall wa int, na string, wb int, nb string :: (wa > wb ==> before(wa, na, wb, nb)) && (wa < wb ==> !before(wa, na, wb, nb))
+// Strict weak order (what sort.Slice needs of its comparator): irreflexive, asymmetric, transitive;
+// incomparability is equality of the (weight, name) pair (weightOrderTotal), hence transitive.
 //@ lemma weightOrderIrreflexive [C19]: nameOrderOK() ==> (forall w int, n string :: !before(w, n, w, n))
 //@ lemma weightOrderAsymmetric [C19]: nameOrderOK() ==> (forall wa int, na string, wb int, nb string :: before(wa, na, wb, nb) ==> !before(wb, nb, wa, na))
 //@ lemma weightOrderTransitive [C19]: nameOrderOK() ==> (forall wa int, na string, wb int, nb string, wc int, nc string :: (before(wa, na, wb, nb) && before(wb, nb, wc, nc)) ==> before(wa, na, wc, nc))
 //@ lemma weightOrderTotal [C19]: nameOrderOK() ==> (forall wa int, na string, wb int, nb string :: (before(wa, na, wb, nb) || before(wb, nb, wa, na)) || (wa == wb && na == nb))
-//@ lemma weightOrderWeightFirst [C19]: forall wa int, na string, wb int, nb string :: (wa > wb ==> before(wa, na, wb, nb)) && (wa < wb ==> !before(wa, na, wb, nb))
